@@ -27,17 +27,20 @@ func init() {
 		Rule: "probe-instrumented programs (templates: straight-line, dotimes incl. empty body, tail loop, non-tail recursion, re-expanding macro, map/foldl callbacks, nested load-string, with/without ignore-errors and handler-bind; plus generated programs) are run unlimited under a counting context to obtain N and a step-stamped trace, then under WithMaxSteps(n) for every n in 1..N+2 (all n when N<=400, else n<=64, n>=N-8 and a stride) and under a scripted context cancelled at step k for every such k; " +
 			"definition context x call context: a function (defun, global lambda, labels, closure made by an earlier request or returned to the host, closure stored in a map, callback of map/foldl/apply, macro body; 20 body shapes) is defined in a fresh runtime under each of {no context, context.Background(), a live cancelable context, a context cancelled once the phase has returned, a distant deadline, a root WithContext} through each loading entry point, then run as a request through each *Context entry point under a DIFFERENT context (scripted, or a real WithCancel / child-of-cancelled-parent / WithDeadline context cancelled by the step hook) cancelled at sampled steps k: the trace is the uncancelled request cut at k-1, ends in context-cancelled at step k; " +
 			"host-started calls: once per worker every Go-implemented function, special operator and macro of the registry is called with argument vectors from a small pool (probe-carrying callback, list, vector, int, type symbol, source text, quoted form, map; forms for operators and macros) and kept when it succeeds and the probe fired (the builtin re-entered the evaluator); calls whose value is a function (compose, flip, curry-function, expr, lambda) give derived callees; each kept call is made twice in one runtime through FunCall / FunCallContext / SpecialOpCall / MacroCall+Eval of the expansion / EvalSExpr, unlimited (N and trace stamped by the lifetime counter), under stratified budgets n and cancellation indices k with the oracles above, plus: the per-evaluation counter starts once per top-level entry; " +
+			"limits reconfigured on a live runtime: two histories per case, each on one runtime for one limit kind (nesting, physical height, tail iterations, macro expansions, step budget, context): 5-10 phases that set the limit through a documented route (With* at InitializeUserEnv, the Config applied later, the exported field assigned before InitializeUserEnv or after 0-3 evaluations; WithMaxSteps; root WithContext / per-call context) to a value chosen relative to the need of the phase's program as measured by the hooks on a twin at the defaults (1-4 below, exact, 1-3 above, far above, 0, negative where documented; needs between the old and the new maximum), then run it: hooks compare height / nesting with the maximum read back at that moment, need above the maximum gives the limit's error (uncaught / handler-bind / ignore-errors) and a usable runtime, need within it the twin's outcome, budget and context the twin's stamped trace cut at n (k-1); " +
 			"physical-height, eval-nesting, tail-iteration and macro-expansion limits are enumerated 1..40 (1..20 for macros) against recursion depths around each bound with hook assertions on every push and eval entry. distinct_nontrivial counts distinct (program template, limit kind, limit value bucket, outcome) combinations",
 		Assumptions: []string{
 			"the unlimited run is made under a never-cancelled context so that steps are counted (the step counter is only live when a context or a budget is configured)",
 			"when an error-swallowing form intercepts the limit error the final outcome is not compared, only that nothing further happened (no probe beyond the budget)",
 			"an uncancelled request does the same (probe trace, outcome) whatever context its functions were defined under; a request whose own context is alive does not end in context-cancelled because a context of an earlier, finished phase is cancelled",
+			"besides the With* values given to InitializeUserEnv, applying a With* Config to the root environment later and assigning the exported, doc-commented fields Runtime.MaxEvalNesting / MaxMacroExpansionDepth and Stack.MaxHeightPhysical / MaxTailIterations between top-level evaluations are documented ways of configuring a limit; the value in force for a top-level evaluation is the one configured when it starts (0 and negative values mean what the field / Config comments say; other negative values are not judged)",
 			"tail-iteration and macro-expansion bounds are checked as 'succeeds at or below the bound, fails beyond bound+1': the exact off-by-one of each counter is not part of the statement",
 		},
 		Cases:       func(tier string) int { return pick(tier, 420, 9000) },
 		Run:         c04Run,
 		Init:        c04Init,
 		MinDistinct: func(tier string) int { return pick(tier, 150, 300) },
+		Driver:      c04Driver,
 	})
 }
 
@@ -58,6 +61,13 @@ type c04Mon struct {
 	// ones counts how often the per-evaluation counter read 1 (c04_hostcall.go: once
 	// per top-level entry)
 	ones int64
+	// live: at every push and every eval entry the maximum configured AT THAT MOMENT is
+	// read back through the public field / accessor and must be respected
+	// (c04_reconf.go: limits reconfigured on a live runtime)
+	live       bool
+	liveBad    string
+	liveWhat   string
+	liveChecks int64
 }
 
 var c04Cur *c04Mon
@@ -87,6 +97,13 @@ func c04Init(w *fw.W) {
 				if h > m.maxHeight {
 					m.maxHeight = h
 				}
+				if m.live {
+					m.liveChecks++
+					if lim := s.MaxHeightPhysical; lim > 0 && h > lim && m.liveBad == "" {
+						m.liveWhat = "physical"
+						m.liveBad = fmt.Sprintf("the call stack holds %d frames while Stack.MaxHeightPhysical reads %d", h, lim)
+					}
+				}
 			}
 		},
 		EvalEnter: func(r *lisp.Runtime, nesting int) {
@@ -94,6 +111,13 @@ func c04Init(w *fw.W) {
 				m.evals++
 				if nesting > m.maxNest {
 					m.maxNest = nesting
+				}
+				if m.live {
+					m.liveChecks++
+					if lim := r.MaxEvalNestingDepth(); lim > 0 && nesting > lim && m.liveBad == "" {
+						m.liveWhat = "nesting"
+						m.liveBad = fmt.Sprintf("evaluation proceeds at nesting %d while MaxEvalNestingDepth() reads %d (Runtime.MaxEvalNesting = %d)", nesting, lim, r.MaxEvalNesting)
+					}
 				}
 			}
 		},
@@ -227,6 +251,7 @@ func c04Run(w *fw.W, idx int) {
 		c04Refill(w, idx)
 		c04CrossCtx(w, idx)
 		c04HostCalls(w, idx)
+		c04Reconf(w, idx)
 	}
 }
 
